@@ -87,10 +87,18 @@ int __wrap_sigaction(int signum, const struct sigaction *sa, struct sigaction *o
 }
 
 static int last_forked_slot = -1;
+int mt_fork_fail_next;	/* set by an extension: the next fork() of the library fails with EAGAIN */
 
 pid_t __wrap_fork(void)
 {
-	int i = alloc_child(-1);
+	int i;
+	if (mt_fork_fail_next) {
+		mt_fork_fail_next = 0;
+		mt_log("FORK failed\n");
+		errno = EAGAIN;
+		return -1;
+	}
+	i = alloc_child(-1);
 	last_forked_slot = i;
 	mt_log("FORK pid=%d\n", CH[i].pid);
 	return CH[i].pid;
@@ -210,6 +218,8 @@ static struct child *child_ref(const char *ref)
 		int i = atoi(ref + 1) % 32;
 		return CH[i].used ? &CH[i] : NULL;
 	}
+	if (ref[0] == 'p')	/* p<pid>: a child spawned by the library on behalf of an extension's object */
+		return child_by_pid(atoi(ref + 1));
 	return NULL;
 }
 
@@ -256,7 +266,13 @@ static int p_action(char *op, int guard, char *a1, char *a2, char *rest)
 		last_forked_slot = -1;
 		r = iv_wait_interest_register_spawn(W[i].o, spawn_fn, NULL);
 		W[i].isreg = (r == 0);
-		W[i].child = last_forked_slot;
+		W[i].child = -1;
+		if (r == 0) {
+			int j;
+			for (j = 0; j < MAXCH; j++)
+				if (CH[j].used && !CH[j].reaped && CH[j].pid == W[i].o->pid)
+					W[i].child = j;
+		}
 		mt_log("RET %d pid=%d\n", r ? -1 : 0, r ? -1 : W[i].o->pid);
 		return 1;
 	}
